@@ -96,6 +96,21 @@ check("C06", "model_checking",
       "bounded: 4 labels, arity <= 5, lam in {1/2,1,2,3}; operands' polynomials are defined by the harness (not by qubovert.sat)",
       "TLA+ contract + transcription checked by TLC; real gate-constraint calls recorded and judged by TLC", "DESIGN 3 C06")
 
+check("C01", "model_checking",
+      "Design: spec/Reduce.tla models PUBO._reduce_degree as a step machine with a NONDETERMINISTIC pair choice; TLC checks Exact "
+      "(consistent ancillas reproduce M, any penalty), NeverUndercut (penalty >= |coefficient|), degree and label discipline and the "
+      "equality of minima at EVERY step for all models / term orders / pair choices within the bounds (dropping the penalty on re-used "
+      "pairs is rejected); spec/ReduceLocal.tla is the finite local lemma that makes both invariants inductive for models of any size. "
+      "Code: (a) spec/CheckReduce.tla judges the forms returned by the real to_qubo/to_quso/to_pubo(d)/to_puso(d) of PUBO, PCBO, PUSO, "
+      "PCSO (penalty None / constant / callable, pairs hints incl. unknown labels, labels of mixed types) on EVERY assignment of "
+      "variables and ancillas: D(s) >= M(convert(s)) when the penalty dominates the boolean-form coefficients, some ancilla extension "
+      "with D = M, degree, labels via the mapping, result type, convert_solution = restriction; (b) hook H1 certificates of larger "
+      "models (up to ~25 variables incl. ancillas) are validated step by step by spec/ReduceTrace.tla against the step machine.",
+      "truth tables for forms with <= 9 (10 thorough) variables; larger forms only via certificates + ReduceLocal; small integer / "
+      "half-integer coefficients; refreshed models as the statement requires; trusted: TLC, record encoder, hook H1 (add-only)",
+      "TLA+ step machine + local lemma checked by TLC; real reduced forms judged on full truth tables by TLC; real reduction "
+      "certificates validated as traces by TLC", "DESIGN 3 C01")
+
 
 def build():
     props = [json.loads(l)["id"] for l in open(os.path.join(VERIF, "properties.jsonl"))]
